@@ -64,8 +64,11 @@ def channel(case):
 
 # ----------------------------------------------------------------------------- generators
 
+# upper bounds of P's number of steps (WriteBlock = MkdirAll, TempFile, lock, Copy, Close, Chtimes,
+# OpenFile(old), lockfile(old), Rename since fix 7e105eb)
 PSTEPS = {("touch", "a"): 1, ("touch", "g"): 4, ("touch", "c"): 4,
-          ("put", "a"): 8, ("put", "c"): 11, ("put", "g"): 15}
+          ("put", "a"): 10, ("put", "c"): 13, ("put", "g"): 17}
+WSTEPS = 9
 
 
 def _tsteps(top, pre, age):
@@ -105,7 +108,7 @@ def _visible_positions(pop, pre):
         # Trash's last step, so every placement behind step 8 behaves like the one at 8
         return list(range(9))
     hidden = set()
-    w0 = n - 7  # index of WriteBlock:os.MkdirAll among P's steps
+    w0 = n - WSTEPS  # index of WriteBlock:os.MkdirAll among P's steps
     for off in (1, 4, 5):  # before TempFile, before Close, before Chtimes
         hidden.add(w0 + off)
     return [k for k in range(n + 1) if k not in hidden]
@@ -427,46 +430,9 @@ def oracle(case, impl):
     return None
 
 
-def _clobbering_untrash(case, impl):
-    """F04a shape: after the last acknowledgement of h, `untrash h` ran on a volume that held both a
-    block file h and a trash entry of h, and made the block older."""
-    w = _walk_hist(case, impl)
-    if w is None:
-        return False
-    c, steps, _ = w
-    last_ack = {}
-    for i, p, r, t, before, after in steps:
-        if p[0] in ("put", "touch") and r == "200":
-            last_ack[p[1]] = i
-        if p[0] == "untrash" and p[1] in last_ack:
-            h = p[1]
-            for (bb, tb), (ba, _) in zip(before, after):
-                if h in bb and any(e[0] == h for e in tb) and h in ba and ba[h][1] > bb[h][1]:
-                    return h
-    return False
-
-
-def finding_of(case, impl, why):
-    f = case.split(" ")
-    if f[0] == "race" and len(f) == 8:
-        kv = _kv(impl)
-        # F4: PUT that overwrites a pre-existing copy (WriteBlock, no flock) racing with Trash, Serialize off:
-        # Trash examined the old file, PUT published the new one and was acknowledged, Trash moved it away.
-        if f[1] == "0" and f[3] in ("c",) and f[5] == "put" and kv.get("P") == "200" and kv.get("get") == "404":
-            tr = kv.get("trace", "").split(",")
-
-            def idx(name):
-                return tr.index(name) if name in tr else -1
-            st, rn = idx("T:Trash:v.os.Stat"), idx("P:WriteBlock:v.os.Rename")
-            fin = max(idx("T:Trash:v.os.Rename"), idx("T:Trash:v.os.Remove"))
-            if 0 <= st < rn < fin:
-                return "F4"
-        return None
-    if f[0] == "hist" and why and ("acknowledged" in why):
-        h = _clobbering_untrash(case, impl)
-        if h and ("block %s " % h in why or "GET %s " % h in why):
-            return "F04a"
-    return None
+# Findings F4 (PUT-overwrite lost to a concurrent Trash) and F04a (untrash rolls the timestamp back) were
+# repaired in /repo (fix 7e105eb, fix f7a86a4); their witnesses are in corpus/C04 and must pass, so
+# there is no finding_of: every lost block is a VIOLATION.
 
 
 def nontrivial_key(case, impl):
